@@ -269,8 +269,10 @@ type LexModel struct {
 	ruleOf  []int            // lexer rule index -> grammar rule index
 	custom  []map[string]int // per grammar rule (class rules): text -> keyword rule
 	// Problems the compiler is expected to report (the grammar should then not be used).
-	Problems         []string
-	Murky            bool
+	Problems []string
+	Murky    bool
+	// TieRules are the grammar rules of the last ambiguity witness reported by Tokens.
+	TieRules         [2]int
 	Keywords         int
 	NonASCIIKeywords int
 }
@@ -432,6 +434,7 @@ func (m *LexModel) Tokens(text string) (toks []LexTok, tie string) {
 	for n := 0; n < limit; n++ {
 		res := m.lexer.Scan(state, text[pos:])
 		if res.HasTie && tie == "" {
+			m.TieRules = [2]int{m.ruleOf[res.Tie[0]], m.ruleOf[res.Tie[1]]}
 			tie = fmt.Sprintf("rules %d and %d (at offset %d, start condition %d)", m.ruleOf[res.Tie[0]], m.ruleOf[res.Tie[1]], pos, state)
 		}
 		tk := LexTok{S: pos, Rule: -1, ViaClass: -1, State: state, Fallback: res.Backtracked && res.Rule >= 0}
